@@ -119,6 +119,24 @@ def boundary_cases():
     for n in (255, 256, 65535, 65536, 70000):
         cases.append(("xattr-key-%d-bytes" % n, xattr_key_len(n)))
 
+    def glob_dirs(r):
+        # directories first created implicitly by file lines, then supplied with attributes by a glob line with -keeptime:
+        # time stamps outside the unsigned 32 bit range are clamped on both paths
+        t = {b"": Node("dir", 0o755), b"old": Node("dir", 0o750, uid=3, gid=4, mtime=-86400), b"new": Node("dir", 0o1777, mtime=(1 << 32) + 5),
+             b"mid": Node("dir", 0o700, mtime=1234567890), b"old/f": Node("file", 0o644, data=[("bytes", b"o")]), b"new/f": Node("file", 0o600, data=[("bytes", b"n")]),
+             b"mid/sub": Node("dir", 0o755, mtime=0xFFFFFFFF), b"mid/sub/g": Node("fifo", 0o644), b"empty": Node("dir", 0o711, mtime=-1)}
+        return t, base_cfg(input="glob-dirs"), "ok"
+    cases.append(("glob-dirs-after-implicit", glob_dirs))
+
+    def glob_types(r):
+        # the pattern the man page recommends (directories first, then files) on a tree with multiply linked files
+        t = {b"": Node("dir", 0o755), b"sub": Node("dir", 0o755), b"a.txt": Node("file", 0o644, data=[("bytes", b"A")]),
+             b"sub/b.txt": Node("file", link_to=b"a.txt"), b"c.txt": Node("file", 0o600, data=[("bytes", b"C")]), b"sub/zz": Node("file", link_to=b"a.txt"),
+             b"lnk": Node("slink", 0o777, target=b"a.txt"), b"pipe": Node("fifo", 0o644), b"sub/deep": Node("dir", 0o700),
+             b"sub/deep/d.txt": Node("file", 0o644, data=[("bytes", b"D")]), b"sub/deep/e.txt": Node("file", link_to=b"sub/deep/d.txt")}
+        return t, base_cfg(input="glob-types"), "ok"
+    cases.append(("glob-type-filters-with-hard-links", glob_types))
+
     def dev(maj, mi):
         def b(r):
             t = {b"": Node("dir", 0o755), b"c": Node("cdev", 0o600, dev=(maj, mi)), b"b": Node("bdev", 0o600, dev=(maj, mi))}
